@@ -500,7 +500,7 @@ phase:
 	// (b) random, deeper
 	n := 3000
 	if c.Thorough() {
-		n = 60000
+		n = 200000
 	}
 	rng := rand.New(rand.NewSource(c.Seed*86028121 + 14))
 	var tlines [][]byte
